@@ -37,8 +37,11 @@ def HasTyR (st : StructTable) : Ty → RExp → Prop
   -- environment: the callee is a mapped pipeline); typed-map mode: not covered
   | t, .split _ false e => HasTyR st { t with arrDim := t.arrDim + 1 } e
   | _, .split _ true _ => False
-  | _, .merge _ _ _ => False
-  | _, .disabled _ _ => False
+  -- the collection of the per-fork values of an ARRAY-mode map call of run-time size, whose value does
+  -- not contain the call's own split (the cancelling shape of `mkMerge`); typed-map mode: not covered
+  | t, .merge c false e => t.arrDim ≠ 0 ∧ noSplitOf c e = true ∧ HasTyR st { t with arrDim := t.arrDim - 1 } e
+  | _, .merge _ true _ => False
+  | t, .disabled d v => HasTyR st ⟨"bool", 0, 0⟩ d ∧ HasTyR st t v
   | t, .fork _ _ e => HasTyR st t e
 def HasTyRList (st : StructTable) : Ty → List RExp → Prop
   | _, [] => True
@@ -285,8 +288,14 @@ theorem evalRT_filterR :
   | .split c m e, t, h => by
     have e' : filterR st t (.split c m e) = .split c m e := by simp [filterR]
     rw [e']; exact ⟨rfl, h⟩
-  | .merge _ _ _, _, h => by simp [HasTyR] at h
-  | .disabled _ _, _, h => by simp [HasTyR] at h
+  | .merge c m e, t, h => by
+    have e' : filterR st t (.merge c m e) = .merge c m e := by simp [filterR]
+    rw [e']; exact ⟨rfl, h⟩
+  | .disabled d v, t, h => by
+    simp only [HasTyR] at h
+    have ih := evalRT_filterR v t h.2
+    simp only [filterR, evalRT, HasTyR, ih.1]
+    exact ⟨trivial, h.1, ih.2⟩
   | .fork c ix e, t, h => by
     have e' : filterR st t (.fork c ix e) = .fork c ix e := by simp [filterR]
     rw [e']; exact ⟨rfl, h⟩
